@@ -46,10 +46,10 @@ FIRST = {
     "C12-4": "missed by C12, C15 HUNG (28 min); per-case alarm and time-limited shrinking; alias sets referring to each other against the registration order",
     "C12-5": "missed; names the template language cannot spell offered as alias / ad-hoc names, every listed alias or ad-hoc tag must be usable in a template",
     "C01-6": "missed; destinations longer than NAME_MAX that agree in their first 251 bytes",
-    "C02-7": "missed (the harness trusted the tool's own verdict on name validity); independent validity oracle for generated names, names that other platforms refuse",
+    "C02-7": "missed (the harness trusted the tool's own verdict on name validity); independent validity oracle for generated names, names that other platforms refuse — seen by C06 (whose name universe has them), still not by C02",
     "C02-8": "missed by C02 (caught by C07): same idea as C07-5",
     "C03-5": "missed; corpus case of a chain through a name that is a file first and a directory afterwards",
-    "C09-7": "the trial ran into its 50-minute limit (every case using the alias waited 120 s): per-case limit 45 s and a worker gives up after three such cases",
+    "C09-7": "the trial ran into its 50-minute limit twice: first every case using the alias waited 120 s, then the alarm exception (an Exception) was SWALLOWED by the tool's own `except Exception` and the expansion went on; the alarm is now a repeating BaseException, limit 45 s",
     "C14-7": "missed by C14 (caught by C15): an alias in a filter/sort expression pasted as source",
     "C15-8": "missed by C15 (caught by C16, which runs with -v)",
     "C17-7": "missed; deep trees whose relative paths exceed 255 bytes while every name is short",
